@@ -15,6 +15,8 @@ def nontrivial(engine, opline):
     if engine == 'feemarket':
         # non-trivial: positive base fee and gas consumption different from 0
         return len(t) == 5 and t[1] != '0' and t[3] != '0'
+    if engine == 'feecheck':
+        return bool(t) and t[0] == 'fc'
     if engine == 'block':
         # non-trivial: a transaction line that was admitted (not a begin/end line, not refused at admission)
         return bool(t) and t[0] in ('eth', 'cos')
@@ -131,8 +133,9 @@ PROPS = {
                   'C09_zero_target_keeps', 'C09_admission', 'C09_admission_implies_precheck',
                   'fact_elasticity', 'fact_changeDenom', 'fact_london_always', 'fact_feemarket_endblock_last', 'fact_feemarket_after_gov', 'fact_maxgas_guard', 'fact_basefee_guards', 'fact_one_base_fee'],
         engines=[dict(name='feemarket', test='TestEngineFeemarket', quick=20000, thorough=400000, thorough_seeds=3, functional=True),
+                 dict(name='feecheck', test='TestEngineFeecheck', quick=4000, thorough=100000, thorough_seeds=3, no_model=True),
                  dict(name='block', test='TestEngineBlock', quick=500, thorough=6000, thorough_seeds=2)],
-        rule='tuples (baseFee, MaxGas|nil, gasConsumed, minGasPrice mantissa) drawn from edge classes (0,1,2^63,2^256-1, around target/limit, MaxGas in {-1,0,1,2,3,..}) and uniform bit-lengths; non-trivial = baseFee>0 and gasConsumed>0; distinct by op line hash',
+        rule='tuples (baseFee, MaxGas|nil, gasConsumed, minGasPrice mantissa) drawn from edge classes (0,1,2^63,2^256-1, around target/limit, MaxGas in {-1,0,1,2,3,..}) and uniform bit-lengths; non-trivial = baseFee>0 and gasConsumed>0; distinct by op line hash. E-feecheck: the two real fee checkers called directly on contexts with base fee below / at / above the minimum gas price, deliver / check / re-check mode, node minimum prices, fee lists (also empty, foreign, two coins), gas, ExtensionOptionDynamicFeeTx with small / zero / negative tips, legacy / access-list / dynamic-fee Ethereum payloads priced around both floors; judged by the law "charged price >= max(base fee, floor(min))" and compared line by line with the fee checkers as translated from the Go source',
         assumptions=['geth CalcBaseFee is the compiled fork function (exercised, constants regenerated)',
                      'admission theorem is about the fee checker arithmetic; that the checker runs for every delivered tx is C07/E-ante'],
     ),
